@@ -250,6 +250,14 @@ void ProcessCMD(
         DecodeLine(pCMDRecs, CMDRecCnt, EnvLine, ErrProc);
     }
 
+    /* the bookkeeping of all callers holds MAXPARAM parameters: refuse more
+       instead of writing behind it */
+
+    if (argc > MAXPARAM) {
+        ErrProc(False, argv[MAXPARAM]);
+        argc = MAXPARAM;
+    }
+
     for (z = 0; z < argc; z++) {
         Unprocessed[z] = (z != 0);
     }
